@@ -157,6 +157,7 @@ class World(OpsMixin, OracleMixin):
                 cancel_callback=self.make_cb(sreq, "c", ps.get("ccb")), **ckw)
             pr.obj = obj
             pr.pstr = str(obj)
+        pr.size_track = bool(ps.get("size_track"))
         self.pools.append(pr)
         self.ev("pool", i, ps["cls"], size, pr.pstr)
         return pr
@@ -241,6 +242,7 @@ class World(OpsMixin, OracleMixin):
         outcome, exc = await self._interp(t, spec)
         t.finished = True
         t.outcome = outcome
+        self.uncount(t)
         pr.L -= 1
         rq.live -= 1
         t.events.append("finish:" + outcome)
@@ -516,11 +518,18 @@ class World(OpsMixin, OracleMixin):
             t = TaskRec(pr, tid)
             pr.tasks[tid] = t
             self.on_new_id(pr, tid)
+            t.counted = True
+            pr.A += 1
             if tid > pr.max_id:
                 pr.max_id = tid
             for f in pr.flushes:
                 pass
         return t
+
+    def uncount(self, t):
+        if t.counted:
+            t.counted = False
+            t.pool.A -= 1
 
     def attribute_s_task(self, pr, t):
         """SimpleTaskPool: which start() request a task belongs to is only known via group ids."""
